@@ -56,11 +56,13 @@ structure StrictWeakOrder {α : Type} (lt : α → α → Prop) : Prop where
 
 /-- sorted w.r.t. a three-way comparison: no later element is strictly less than an
 earlier one (`slices.IsSortedFunc`) -/
-def Sorted (cmp : Addr → Addr → Int) (l : List Addr) : Prop :=
+def Sorted {α : Type} (cmp : α → α → Int) (l : List α) : Prop :=
   l.Pairwise (fun a b => ¬ cmp b a < 0)
 
-/-- SORT-1: what is assumed about `slices.SortFunc` -/
-structure SortContract (sort : (Addr → Addr → Int) → List Addr → List Addr) : Prop where
+/-- SORT-1: the contract of `slices.SortFunc` (for any element type; `sortFunc_order` uses it
+for `netip.Addr`).  It is a theorem about the model of `pdqsortCmpFunc` in `Go/Sort.lean`:
+`sort_contract_model` in `Theorems/C12Sort.lean`. -/
+structure SortContract {α : Type} (sort : (α → α → Int) → List α → List α) : Prop where
   perm : ∀ cmp l, StrictWeakOrder (fun a b => cmp a b < 0) → (sort cmp l).Perm l
   sorted : ∀ cmp l, StrictWeakOrder (fun a b => cmp a b < 0) → Sorted cmp (sort cmp l)
 
